@@ -532,10 +532,13 @@ def main(argv=None):
         "wall_s": round(wall, 2),
         "violations": len(violations),
     }
-    os.makedirs(os.path.join(HERE, "evidence"), exist_ok=True)
-    with open(os.path.join(HERE, "evidence", pid + ".json"), "w") as fh:
-        json.dump(evidence, fh, indent=1, ensure_ascii=True)
-        fh.write("\n")
+    if os.path.realpath(REPO) == "/repo" and not os.environ.get("MHLVERIF_COV"):
+        # evidence describes runs against /repo itself: sensitivity runs against a patched scratch copy (mutants/driver.py,
+        # tools/recheck_seeded.py set MHLVERIF_REPO) and coverage-measuring runs leave it alone
+        os.makedirs(os.path.join(HERE, "evidence"), exist_ok=True)
+        with open(os.path.join(HERE, "evidence", pid + ".json"), "w") as fh:
+            json.dump(evidence, fh, indent=1, ensure_ascii=True)
+            fh.write("\n")
     print(
         "%s %s seed=%d: %d evaluations, %d distinct non-trivial, %d violations, %.1fs%s"
         % (pid, args.tier, seed, evaluations, len(nontrivial), len(violations), wall,
